@@ -77,11 +77,12 @@ class VTuple(Val):
 
 class VArray(Val):
     """elems: tuple of values (concrete length)"""
-    __slots__ = ('elems', 'ety')
+    __slots__ = ('elems', 'ety', 'name')
 
-    def __init__(self, elems, ety=None):
+    def __init__(self, elems, ety=None, name=None):
         self.elems = tuple(elems)
         self.ety = ety
+        self.name = name      # def path of the constant table this array is (a row of), if any
 
     def __repr__(self):
         return f"[{len(self.elems)} elems]"
